@@ -313,6 +313,26 @@ Proof.
       eapply cs_transfer_amount_wf; eauto.
 Qed.
 
+Lemma cs_apply_signed_ok : forall cfg sp l m ue x,
+    cs_apply_signed cfg sp l m ue = ROk x ->
+    cs_apply_transfers sp l m ue = ROk x /\ Forall (fun t => cs_is_hash cfg (tr_to t) = true) l.
+Proof.
+  induction l as [|t tl IH]; intros m ue x H; cbn [cs_apply_signed cs_apply_transfers] in *.
+  - split; [exact H|constructor].
+  - destruct (cs_is_hash cfg (tr_to t)) eqn:EH; [|discriminate]. cbn [negb] in H.
+    destruct (cs_transfer_assert sp m t); try discriminate.
+    destruct (IH _ _ _ H) as (A & F). split; [exact A|constructor; assumption].
+Qed.
+
+Lemma cs_apply_signed_no_panic : forall cfg sp l m ue, cs_apply_signed cfg sp l m ue <> RPanic.
+Proof.
+  induction l as [|t tl IH]; intros m ue; cbn [cs_apply_signed]; [discriminate|].
+  destruct (negb (cs_is_hash cfg (tr_to t))); [discriminate|].
+  destruct (cs_transfer_assert sp m t) eqn:E; try discriminate.
+  - apply IH.
+  - exfalso. exact (cs_transfer_assert_no_panic _ _ _ E).
+Qed.
+
 (* ---------- incrementNonce ---------- *)
 Lemma cs_increment_nonce_spec : forall sp m id m' first u,
     cs_increment_nonce sp m id = (m', first, u) ->
@@ -387,8 +407,8 @@ Proof.
   destruct (cfg_fee cfg && negb (cs_is_hash cfg (cfg_miner cfg))); [discriminate|].
   fold (cs_fee_transfers cfg tx) in H.
   destruct (cs_apply_transfers sp (trs ++ cs_fee_transfers cfg tx) m []) as [[m1 ue1]| |] eqn:E1; try discriminate.
-  destruct (cs_apply_transfers sp signed m1 ue1) as [[m2 ue2]| |] eqn:E2; try discriminate.
-  exists m2, ue2.
+  destruct (cs_apply_signed cfg sp signed m1 ue1) as [[m2 ue2]| |] eqn:E2; try discriminate.
+  exists m2, ue2. apply cs_apply_signed_ok in E2. destruct E2 as (E2 & _).
   rewrite app_assoc, cs_apply_transfers_app, E1, E2.
   destruct (cs_increment_nonce sp m2 (tx_from tx)) as [[m3 first] u] eqn:EI.
   inversion H; subst. cbn [fst snd st_accts st_nodes]. repeat split; reflexivity.
@@ -455,8 +475,8 @@ Proof.
   intros. unfold cs_finish.
   destruct (cfg_fee cfg && negb (cs_is_hash cfg (cfg_miner cfg))); [discriminate|].
   destruct (cs_apply_transfers sp _ m []) as [[m1 ue1]| |] eqn:E1; try discriminate.
-  - destruct (cs_apply_transfers sp signed m1 ue1) as [[m2 ue2]| |] eqn:E2; try discriminate.
-    exfalso. exact (cs_apply_transfers_no_panic _ _ _ _ E2).
+  - destruct (cs_apply_signed cfg sp signed m1 ue1) as [[m2 ue2]| |] eqn:E2; try discriminate.
+    exfalso. exact (cs_apply_signed_no_panic _ _ _ _ _ E2).
   - exfalso. exact (cs_apply_transfers_no_panic _ _ _ _ E1).
 Qed.
 
@@ -646,12 +666,12 @@ Definition cs_typed_txn (cfg : cs_cfg) (tx : cs_txn) (r : cs_sc_result) : Prop :
 Definition cs_typed_item (cfg : cs_cfg) (it : cs_item) : Prop :=
   cs_typed_txn cfg (snd (fst it)) (snd it).
 
-(* the destinations the contract handed over were ids IsHash accepts (StateContext.AddTransfer
-   refuses the others; AddSignedTransfer does not look - for signed transfers this is a premise
-   about the calling contract) *)
+(* the destinations of the transfers the contract queued were ids IsHash accepts: enforced by
+   StateContext.AddTransfer, which refuses the others (the call then sees an error).  Signed
+   transfers need no such premise: updateState checks their destinations itself. *)
 Definition cs_accepted (cfg : cs_cfg) (tx : cs_txn) (r : cs_sc_result) : Prop :=
   match tx_type tx, r with
-  | TSC, SCOk _ trs signed _ _ => Forall (fun t => cs_is_hash cfg (tr_to t) = true) (trs ++ signed)
+  | TSC, SCOk _ trs _ _ _ => Forall (fun t => cs_is_hash cfg (tr_to t) = true) trs
   | _, _ => True
   end.
 
@@ -670,6 +690,17 @@ Proof.
   apply Z.leb_le in H1. apply Z.ltb_lt in H2. unfold cs_canon_id, cs_upper_base. lia.
 Qed.
 
+Lemma cs_finish_applied_signed : forall cfg sp tx m nodes trs signed evs status out st' status' out' evs',
+    cs_finish cfg sp tx m nodes trs signed evs status out = Applied st' status' out' evs' ->
+    Forall (fun t => cs_is_hash cfg (tr_to t) = true) signed.
+Proof.
+  intros until evs'. intros H. unfold cs_finish in H.
+  destruct (cfg_fee cfg && negb (cs_is_hash cfg (cfg_miner cfg))); [discriminate|].
+  destruct (cs_apply_transfers sp _ m []) as [[m1 ue1]| |]; try discriminate.
+  destruct (cs_apply_signed cfg sp signed m1 ue1) as [[m2 ue2]| |] eqn:E2; try discriminate.
+  apply cs_apply_signed_ok in E2. tauto.
+Qed.
+
 Lemma cs_finish_applied_hash : forall cfg sp tx m nodes trs signed evs status out st' status' out' evs',
     cs_finish cfg sp tx m nodes trs signed evs status out = Applied st' status' out' evs' ->
     cfg_fee cfg = true -> cs_is_hash cfg (cfg_miner cfg) = true.
@@ -681,7 +712,9 @@ Qed.
 Lemma cs_update_ideal_applied_hash : forall cfg st round tx r st' status out evs,
     cs_update_ideal cfg st round tx r = Applied st' status out evs ->
     (cfg_fee cfg = true -> cs_is_hash cfg (cfg_miner cfg) = true) /\
-    (tx_type tx = TSend -> cs_is_hash cfg (tx_to tx) = true).
+    (tx_type tx = TSend -> cs_is_hash cfg (tx_to tx) = true) /\
+    (forall ws trs signed sevs sout, tx_type tx = TSC -> r = SCOk ws trs signed sevs sout ->
+                                     Forall (fun t => cs_is_hash cfg (tr_to t) = true) signed).
 Proof.
   intros cfg st round tx r st' status out evs H. unfold cs_update_ideal in H.
   assert (H' :
@@ -714,9 +747,12 @@ Proof.
   - destruct (cs_get (tx_from tx) (st_accts st)); [|discriminate].
     destruct (ac_bal c <? cs_wrap_u64 (tx_fee tx + tx_value tx)); [discriminate|].
     destruct (cs_is_hash cfg (tx_to tx)) eqn:EH; [|discriminate]. cbn [negb] in H'.
-    split; [eapply cs_finish_applied_hash; eauto|reflexivity].
-  - split; [eapply cs_finish_applied_hash; eauto|discriminate].
-  - destruct r; [| |discriminate]; (split; [eapply cs_finish_applied_hash; eauto|discriminate]).
+    split; [eapply cs_finish_applied_hash; eauto|split; [reflexivity|discriminate]].
+  - split; [eapply cs_finish_applied_hash; eauto|split; discriminate].
+  - destruct r; [| |discriminate].
+    + split; [eapply cs_finish_applied_hash; eauto|split; [discriminate|]].
+      intros ws trs sg sevs sout _ Eq. inversion Eq; subst. eapply cs_finish_applied_signed; eauto.
+    + split; [eapply cs_finish_applied_hash; eauto|split; discriminate].
   - discriminate.
 Qed.
 
@@ -753,7 +789,7 @@ Lemma cs_update_ideal_canon_strict : forall cfg st round tx r st' status out evs
     cs_canon_accts (st_accts st').
 Proof.
   intros cfg st round tx r st' status out evs S Cs (Cf & Ty & Ac) H.
-  pose proof (cs_update_ideal_applied_hash _ _ _ _ _ _ _ _ _ H) as (HM & HT).
+  pose proof (cs_update_ideal_applied_hash _ _ _ _ _ _ _ _ _ H) as (HM & HT & HS).
   apply cs_update_ideal_applied in H. destruct H as (m2 & ue2 & A & B & _).
   assert (Dst : Forall (fun t => tr_amt t <> 0 -> cs_canon_id (tr_to t)) (cs_queued cfg tx r)).
   { assert (Fee : Forall (fun t => tr_amt t <> 0 -> cs_canon_id (tr_to t)) (cs_fee_transfers cfg tx)).
@@ -766,8 +802,8 @@ Proof.
     - constructor; [|exact Fee]. intros _. cbn [tr_to]. apply (cs_is_hash_strict cfg); auto.
     - exact Fee.
     - destruct r; try exact Fee.
-      apply Forall_app in Ac. destruct Ac as [A1 A2].
-      apply Forall_app. split; [apply Acc; exact A1|]. apply Forall_app. split; [exact Fee|apply Acc; exact A2].
+      apply Forall_app. split; [apply Acc; exact Ac|]. apply Forall_app. split; [exact Fee|].
+      apply Acc. eapply HS; reflexivity.
     - constructor. }
   pose proof (cs_apply_transfers_canon _ _ _ _ _ _ Cs Ty Dst A) as C2.
   rewrite B. unfold cs_increment_nonce. cbn [fst].
